@@ -175,7 +175,7 @@ Theorem C19_accepted_runs_refuted : ~ C19_accepted_runs_statement.
 Proof. exact accepted_runs_refuted. Qed.
 
 (* ================================================================================================================ *)
-(* 4. D14b: what the randomisation loops do in /repo BEFORE fix C19-1 (Limits.rand_loop transcribes that code)        *)
+(* 4. D14b: what the randomisation loops do in /repo BEFORE fix C19-1 (ConfigLoops.rand_loop_old; = Limits.rand_loop until the Coq patch of C19-1 is applied)        *)
 (* ================================================================================================================ *)
 (* d_1100 = ref_d0 under MaximumImplementationCost = 1100 (attainable and binding: the two actions cost 1250);
    d_5000 = the same under 5000 (admits everything)  -- ConfigWitness.v *)
@@ -184,7 +184,7 @@ Proof. exact accepted_runs_refuted. Qed.
        after the fix the same picks give the boundary state *)
 Example C19_unfixed_loop_panics_although_the_boundary_was_found :
   wf_dataset d_1100 = true /\ state_is_valid d_1100 (start_extreme d_1100) = true /\ limit_binding d_1100 = true /\
-  randomize d_1100 [1; 0]%nat (start_extreme d_1100) = LPanic /\
+  randomize_old d_1100 [1; 0]%nat (start_extreme d_1100) = LPanic /\
   match randomize_fx d_1100 [1; 0]%nat (start_extreme d_1100) with
   | LOk s => active_list d_1100 s = [false; true] /\ state_is_valid d_1100 s = true
   | _ => False
@@ -194,7 +194,7 @@ Proof. vm_compute. repeat split; reflexivity. Qed.
 (* (ii) with every action already in the target state the unfixed loop never ends, whatever is picked; the fixed loop returns *)
 Theorem C19_unfixed_loop_spins : forall d dir s a picks,
   (forall i, (i < nactions d)%nat -> st_active s i = dir) -> picks_ok d picks = true ->
-  rand_loop d dir picks (S a) true s = LOutOfPicks.
+  rand_loop_old d dir picks (S a) true s = LOutOfPicks.
 Proof. exact unfixed_loop_spins. Qed.
 
 Theorem C19_fixed_loop_returns : forall d dir s a picks, all_target d s dir = true ->
